@@ -1,12 +1,12 @@
 SPECIFICATION Spec
 CONSTANTS
   M = {1, 2}
-  MaxN = 2
+  MaxN = 3
   Delays = {0, 1}
-  Actives = {0, 1, 2}
+  Actives = {0, 2}
   Starts = {2}
   InitBlocks = {1, 3}
-  MaxMsgs = 1
+  MaxMsgs = 0
   Slack = 1
   Faults = {"initiate", "next"}
   BadMsgs = {FALSE}
